@@ -1,1 +1,41 @@
-From QV Require Import Base Fields SrcFacts Msg SrcDecisions Cache Sim Browser BrowserSpec.
+(* Properties_C14.v — browser notifications form well-formed life cycles for its own type only (partial). *)
+From QV Require Import Base Fields SrcFacts Msg SrcDecisions Cache Sim Browser BrowserSpec BrowserProofs.
+Local Open Scope Z_scope.
+
+(* PARTIAL (handler level).  updateService emits at most one notification: serviceAdded iff the instance is not in the map
+   of added services, serviceUpdated only for an instance in the map whose stored description differs (Service::operator==,
+   which compares every member - tie to service.cpp below), and in both cases stores the reported description; it reports
+   only instances whose type equals the browser's type, unless the browser enumerates all types.  A removal names the
+   service exactly as stored and removes it.  Hence, with "map of added services" as the life-cycle state, every
+   notification of every handler respects added (updated)* removed.  The run-level statement over whole histories
+   (several browsers, shared caches, timers) is decided on every run by the acceptor mon_browser (codes 50-55). *)
+Theorem C14_update_service_partial j v fq b :
+  let '(need, b', es) := update_service j v fq b in
+  let '(sname, stype) := split_fq fq in
+  let key := bs_data fq in
+  (es = [] /\ (b_services b' = b_services b \/
+               exists s, smap_find key (b_services b) = Some s /\ exists s', service_eqb s s' = true /\ b_services b' = smap_insert key s' (b_services b)))
+  \/
+  (exists srv s, lookup_view stype T_PTR v <> [] /\ hd_error (lookup_view fq T_SRV v) = Some srv /\
+     s = mkService stype sname (r_target srv) (r_port srv) (merged_attrs fq v) /\
+     (bs_eqb (b_type b) (Some browse_type) = true \/ bs_eqb stype (b_type b) = true) /\
+     b_services b' = smap_insert key s (b_services b) /\
+     ((smap_find key (b_services b) = None /\ es = [ESig (N.of_nat j) SIG_serviceAdded (PService s)]) \/
+      (exists old, smap_find key (b_services b) = Some old /\ service_eqb old s = false /\
+                   es = [ESig (N.of_nat j) SIG_serviceUpdated (PService s)]))).
+Proof. exact (update_service_spec j v fq b). Qed.
+Print Assumptions C14_update_service_partial.
+
+Theorem C14_removal_names_stored_partial j v r b :
+  r_type r = T_SRV ->
+  let '(b', es) := on_record_expired j v r b in
+  (es = [] /\ b' = b) \/
+  (exists s, smap_find (bs_data (r_name r)) (b_services b) = Some s /\
+             es = [ESig (N.of_nat j) SIG_serviceRemoved (PService s)] /\
+             b_services b' = smap_remove (bs_data (r_name r)) (b_services b)).
+Proof. exact (record_expired_srv_spec j v r b). Qed.
+Print Assumptions C14_removal_names_stored_partial.
+
+Theorem C14_equality_compares_every_field : forallb (fun f => existsb (sfield_eqb f) service_eq_fields) all_sfields = true.
+Proof. exact service_eq_all_fields. Qed.
+Print Assumptions C14_equality_compares_every_field.
